@@ -50,10 +50,11 @@ pboolean p_spinlock_unlock (PSpinLock *s)
 	if (g_thr != NULL && !g_snapped) { g_snap = g_thr->base; g_snapped = 1; }
 	return TRUE;
 }
-PSpinLock *p_spinlock_new (void) { return malloc (1); }
-void p_spinlock_free (PSpinLock *s) { free (s); }
-PUThreadKey *p_uthread_local_new (PDestroyFunc f) { return malloc (1); }
-void p_uthread_local_free (PUThreadKey *k) { free (k); }
+unsigned g_spin_new, g_spin_free, g_key_new, g_key_free; PDestroyFunc g_key_dtor; unsigned g_tls_sets_at_key_free;
+PSpinLock *p_spinlock_new (void) { if (nondet_bool ()) return NULL; g_spin_new++; PSpinLock *s = malloc (1); __CPROVER_assume (s != NULL); return s; }
+void p_spinlock_free (PSpinLock *s) { if (s == NULL) return; g_spin_free++; free (s); }
+PUThreadKey *p_uthread_local_new (PDestroyFunc f) { g_key_dtor = f; if (nondet_bool ()) return NULL; g_key_new++; PUThreadKey *k = malloc (1); __CPROVER_assume (k != NULL); return k; }
+void p_uthread_local_free (PUThreadKey *k) { if (k == NULL) return; g_key_free++; g_tls_sets_at_key_free = g_tls_sets; free (k); }
 ppointer p_uthread_get_local (PUThreadKey *k) { g_tls_gets++; g_tls_key_used = k; return g_tls_value; }
 void p_uthread_set_local (PUThreadKey *k, ppointer v) { g_tls_sets++; g_tls_key_used = k; g_tls_value = v; }
 pchar *p_strdup (const pchar *s) { g_dup_arg = s; if (s == NULL || nondet_bool ()) { g_dup = NULL; return NULL; } g_dup = malloc (4); __CPROVER_assume (g_dup != NULL); g_allocs++; return g_dup; }
@@ -165,4 +166,28 @@ void h_current (void)
 	if (known) { OBL ((void *) c == (void *) t && g_tls_sets == 0 && g_allocs == 0, "known thread: its handle"); CANARY ("known"); }
 	else if (c != NULL) { OBL (((PUThreadBase *) c)->ref_count == 1 && ((PUThreadBase *) c)->ours == FALSE && g_tls_sets == 1 && g_tls_value == (ppointer) c, "unknown thread: fresh handle with one reference owned by the thread's slot"); CANARY ("adopted"); }
 	else { OBL (g_alloc_failed && g_tls_sets == 0, "allocation failure: NULL"); CANARY ("alloc failed"); }
+}
+
+/* ---- C20: p_uthread_init / p_uthread_shutdown (called by p_libsys_init/shutdown): the start-up spinlock and the TLS key of
+ * the "current thread" slot are created at most once however often init runs, and are released exactly once by shutdown;
+ * the main thread's own handle (created lazily by p_uthread_current) is dropped before its slot goes away */
+void h_init_shutdown (void)
+{
+	g_spin_new = g_spin_free = g_key_new = g_key_free = 0; g_tls_sets = g_tls_gets = 0; g_decs = 0; g_free_internal = 0; g_allocs = g_frees = 0; g_gone = 0; g_tls_value = NULL;
+	pp_uthread_specific_data = NULL; pp_uthread_new_spin = NULL;
+	p_uthread_init ();
+	OBL (g_key_dtor == (PDestroyFunc) pp_uthread_cleanup, "the slot's destroy notifier is the thread clean-up (drops a thread's own reference at its exit)");
+	p_uthread_init ();
+	OBL (g_spin_new <= 1 + (pp_uthread_new_spin != NULL ? 0u : 1u) && g_key_new <= 1 + (pp_uthread_specific_data != NULL ? 0u : 1u), "a second init creates only what the first could not");
+	unsigned live_spin = pp_uthread_new_spin != NULL, live_key = pp_uthread_specific_data != NULL;
+	OBL (g_spin_new == live_spin && g_key_new == live_key, "init never replaces (and so never leaks) an existing spinlock or key");
+	/* the main thread may have asked for its handle in between */
+	_Bool has_handle = live_key && nondet_bool ();
+	if (has_handle) { g_thr = malloc (sizeof (THR)); __CPROVER_assume (g_thr != NULL); g_thr->base.ref_count = 1; g_thr->base.ours = FALSE; g_thr->base.name = NULL; g_tls_value = g_thr; g_allocs = 1; }
+	p_uthread_shutdown ();
+	OBL (g_spin_free == live_spin && g_key_free == live_key && pp_uthread_new_spin == NULL && pp_uthread_specific_data == NULL, "shutdown releases the spinlock and the key exactly once and forgets them");
+	if (has_handle) { OBL (g_decs == 1 && g_tls_value == NULL && g_tls_sets_at_key_free >= 1, "the main thread's handle is dropped and its slot cleared before the key goes away"); CANARY ("main thread had a handle"); }
+	p_uthread_shutdown ();
+	OBL (g_spin_free == live_spin && g_key_free == live_key, "a second shutdown releases nothing again");
+	if (live_spin && live_key) CANARY ("both created"); if (!live_key) CANARY ("key allocation failed");
 }
